@@ -59,6 +59,14 @@ def gen_case(rng, i, tier, pool):
     n = rng.choice([1500, 6000]) if ch < 100 else 600
     sig = rng.choice([0, 1, 4])
     lines = ["case %d" % i, "stream %d %d %.1f %d %d %d" % (ch, rate, q, n, sig, rng.randint(1, 10 ** 6))]
+    if ch < 100 and rng.random() < 0.3:
+        # a chain whose second link has another channel count; reads without the priming call cross the boundary inside ov_read
+        ch2 = rng.choice([c for c in (1, 2, 3, 6) if c != ch])
+        lines[1] += " %d %d %.1f %d" % (ch2, rng.choice([8000, 22050, 44100]), rng.choice([0.1, 0.4]), rng.choice([1500, 3000]))
+        for _ in range(rng.randint(8, 40)):
+            word = rng.choice([1, 2, 2])
+            lines.append("read %d %d %d %d - np" % (word, rng.randint(0, 1), rng.randint(0, 1), rng.choice([4096, 4096, 65536, 7, 1000, word * ch, word * ch2])))
+        return lines
     if rng.random() < 0.15:
         lines.append("halfrate 1")
     for _ in range(rng.randint(4, 10)):
@@ -104,6 +112,26 @@ def run(chk):
             bad = None
             if kv["intact"] != "1":
                 bad = "frames: bytes written beyond the returned length (or on an error return)"
+            elif avail < 0:
+                # no priming call: whatever link the call ended up in, it must hand out whole frames of THAT link and move by as many
+                if rc.lstrip("-").isdigit() and int(rc) > 0 and word in (1, 2):
+                    bps = word * ch
+                    nbytes = int(rc)
+                    raw = bytes.fromhex(inn) if inn != "-" else b""
+                    got = bytes.fromhex(out) if out != "-" else b""
+                    if nbytes > ln or nbytes % bps != 0 or adv != (nbytes // bps) << hs:
+                        bad = "frames: %d bytes from a %d-channel link (word %d, buffer %d): not whole frames / position moved by %d" % (nbytes, ch, word, ln, adv)
+                    elif len(raw) != 4 * (nbytes // word):
+                        bad = "interleave: %d samples went through the filter for %d samples returned (%d channels)" % (len(raw) // 4, nbytes // word, ch)
+                    else:
+                        exp = bytearray()
+                        for k in range(nbytes // word):
+                            v = ref_sample(struct.unpack(">I", raw[4 * k:4 * k + 4])[0], word)
+                            exp += got[len(exp):len(exp) + word] if v is None else ref_bytes(v, word, sg, be)
+                        if bytes(exp) != got:
+                            bad = "bytes: conversion differs on an unprimed read (word=%d signed=%d be=%d, %d channels)" % (word, sg, be, ch)
+                avail = (adv >> hs) if adv > 0 else 0
+                mlines[-1] = "conv %d %d %d %d %d %d %d %s" % (word, sg, be, ln, ch, avail, hs, kv["in"])
             elif avail > 0:
                 bps = word * ch
                 if word <= 0 or ln < bps:
@@ -147,8 +175,8 @@ def run(chk):
         for j, (cl, ml) in enumerate(zip(creads, mouts)):
             kv = dict(t.split("=", 1) for t in cl.split(" ")[1:])
             mv = dict(t.split("=", 1) for t in ml.split(" ")) if "=" in ml else {}
-            if int(kv["avail"]) == 0:
-                continue          # nothing decoded (end of stream): conversion not exercised
+            if int(kv["avail"]) == 0 or (int(kv["avail"]) < 0 and int(kv["adv"]) <= 0):
+                continue          # nothing decoded (end of stream, or an unprimed read that was refused / hit the end): conversion not exercised
             if (kv["rc"], kv["adv"], kv["out"]) != (mv.get("rc"), mv.get("adv"), mv.get("out")):
                 dis.append(({"ops": r["ops"], "c": [cl], "m": [ml]}, (j, cl[:300], ml[:300])))
                 break
